@@ -398,6 +398,59 @@ theorem connection_authenticated_only_via_authenticator (e : AuthEnv) (claimed :
 theorem fact_authenticate_call_sites : Facts.C15.cmAuthenticateCalls = 2 ∧ Facts.C15.cmAuthenticateCallsChecked = 2 ∧
     Facts.C15.cmAuthenticateErrorReturnsZeroPeer = true ∧ Facts.C15.extractCertificateIndex = "0" := by decide
 
+theorem encryptCount_ok : ∀ (parts : List KeyRes) (k : Nat), encryptCount parts = .ok k → k = parts.length ∧ ∀ p ∈ parts, p = .ok := by
+  intro parts
+  induction parts with
+  | nil => intro k h; simp [encryptCount] at h; subst h; simp
+  | cons p rest ih =>
+    intro k h
+    cases p with
+    | ok =>
+      simp only [encryptCount] at h
+      cases hr : encryptCount rest with
+      | ok k' =>
+        rw [hr] at h
+        simp only [Nuts.Res.bind, Nuts.Res.ok.injEq] at h
+        obtain ⟨h1, h2⟩ := ih k' hr
+        subst h
+        exact ⟨by simp [h1], fun p hp => by
+          rcases List.mem_cons.mp hp with rfl | hp'
+          · rfl
+          · exact h2 p hp'⟩
+      | err e => rw [hr] at h; simp [Nuts.Res.bind] at h
+      | panic e => rw [hr] at h; simp [Nuts.Res.bind] at h
+    | deactivated => simp [encryptCount] at h
+    | notFound => simp [encryptCount] at h
+    | badKey => simp [encryptCount] at h
+
+/-- **a transaction requested WITH participants is never created public**: `CreateTransaction` either fails or produces
+    a PAL header with exactly one entry per participant (so `collectTransactionList` never attaches its payload); it
+    succeeds only if the node DID is set and every participant's key agreement key resolved -/
+theorem created_private_has_full_pal (nodeDIDSet : Bool) (parts : List KeyRes) (hne : parts ≠ []) (k : Nat)
+    (h : createPalCount nodeDIDSet parts = .ok k) :
+    k = parts.length ∧ 0 < k ∧ nodeDIDSet = true ∧ ∀ p ∈ parts, p = .ok := by
+  unfold createPalCount at h
+  have he : parts.isEmpty = false := by cases parts with | nil => exact absurd rfl hne | cons _ _ => rfl
+  simp only [he, Bool.false_eq_true, if_false] at h
+  cases nodeDIDSet with
+  | false => simp at h
+  | true =>
+    simp only [Bool.not_true, Bool.false_eq_true, if_false] at h
+    obtain ⟨h1, h2⟩ := encryptCount_ok parts k h
+    refine ⟨h1, ?_, rfl, h2⟩
+    rw [h1]
+    cases parts with
+    | nil => exact absurd rfl hne
+    | cons _ _ => simp
+
+/-- `PAL.Encrypt` has no `continue` in its loops (no participant is skipped) and both checks of the recipient loop
+    return an error; `tlsAuthenticator` is stateless: its only field is the service resolver, `Authenticate` has a value
+    receiver, the file declares no package-level variables — the endpoint is resolved on EVERY call -/
+theorem fact_encrypt_and_authenticator_stateless :
+    Facts.C15.encryptContinues = 0 ∧ Facts.C15.encryptLoopChecks = ["err != nil", "!ok"] ∧ Facts.C15.encryptChecksAllReturnError = true ∧
+    Facts.C15.tlsAuthenticatorFields = ["serviceResolver"] ∧ Facts.C15.authenticateReceiver = "tlsAuthenticator" ∧
+    Facts.C15.authenticatorPackageVars = [] := by decide
+
 /-! ### non-vacuity: a node holding a private transaction for [A, B]; B (listed, authenticated) gets the payload,
     C (unlisted) and an unauthenticated B get the empty response; hypotheses of the theorems are met -/
 
